@@ -923,6 +923,8 @@ class Interp:
                 b.kelem = join([b.kelem, i]) if b.kelem is not None else i
             b.deps = b.deps | i.deps
             return b.elem
+        if b.k == "dict" and b.fields is not None and self.cstr(e.slice, env) is not None and self.cstr(e.slice, env) in b.fields:
+            return add_deps(b.fields[self.cstr(e.slice, env)], b.deps)
         if b.k in ("list", "dict"):
             if b.elem is not None:
                 return add_deps(b.elem, i.deps)
@@ -961,8 +963,11 @@ class Interp:
             for v in vs:
                 ms += v.meths
             return V("dict", meths=ms, deps=kd)
+        # a literal table with constant string keys keeps its entries one by one (TABLE["name"] is that entry)
+        exact = {k_.value: v_ for k_, v_ in zip(e.keys, vs)} if e.keys and len(e.keys) == len(vs) and all(
+            isinstance(k_, ast.Constant) and isinstance(k_.value, str) for k_ in e.keys) else None
         d = V("dict", elem=join(vs) if vs else None, deps=kd,
-              kelem=join(ks) if ks and all(k.k == "obj" for k in ks) else None)
+              kelem=join(ks) if ks and all(k.k == "obj" for k in ks) else None, fields=exact)
         return d
 
     def _comp_env(self, generators, env, cx):
@@ -1613,6 +1618,13 @@ class Interp:
         if n == "enumerate" and args and args[0].k in ("list", "dict"):
             el = self.elem_of(args[0])
             return V("list", elem=V("list", elem=el, items=[raw(args[0].deps, deg={}, carrier="bare"), el]), deps=alld)
+        if n == "map" and len(args) == 2 and args[0].k == "meth" and args[0].meths:
+            # map(self.method, xs) / map(Class.static_method, xs): the method applied to an element
+            el = self.elem_of(args[1]) if args[1].k in ("list", "dict") else args[1]
+            fv = args[0]
+            outs_ = [self.inline(cn_, owner_, m_, is_self_, ([el] if not (fv.const == "<unbound>") else [el])[(0 if True else 0):], {}, cx, e)
+                     for cn_, owner_, m_, is_self_ in fv.meths]
+            return V("list", elem=join(outs_) if outs_ else None, deps=args[1].deps)
         if n == "map" and len(args) == 2 and args[0].k == "getter":
             el = self.elem_of(args[1]) if args[1].k in ("list", "dict") else args[1]
             return V("list", elem=self.get_path(el, args[0].const, cx, e) if el.k == "obj" else raw(alld), deps=args[1].deps)
